@@ -56,7 +56,7 @@ def cases(draw, tier):
         types = draw(st.sampled_from([UNARY_HEAVY, UNARY_HEAVY, list(gen.ALL_TYPES), ONLY_NEG, ONLY_BUF]))
     nl = draw(gen.netlists(min_inputs=0, max_inputs=7 if big else 5, max_gates=40 if big else 22, types=types,
                            max_arity=4, styles=('plain', 'digits', 'mixed'), max_outputs=5,
-                           dup_rate=draw(st.sampled_from([0, 2, 4]))))
+                           dup_rate=draw(st.sampled_from([0, 2, 4])), const_operands=(0, 0, 2)))
     return {'nl': nl, 'route': draw(gen.routes(nl)), 'spec': spec}
 
 
